@@ -47,6 +47,7 @@ class Ctx:
         self.state = None
         self.sim_time = 0.0
         self.checks = 0
+        self.interleaving = None     # engine-defined description of the schedule/order actually taken
 
     def count(self, key, n=1):
         self.stats[key] = self.stats.get(key, 0) + n
@@ -114,7 +115,8 @@ def execute(prop, choices, tier, known=None, collect_known=True, params=None):
                             'signature': v.signature}
     res.update(stats=ctx.stats, trace=ctx.trace, known_hits=ctx.known_hits,
                nontrivial=ctx.nontrivial, state=ctx.state, sim_time=ctx.sim_time,
-               checks=ctx.checks, record=choices.record())
+               checks=ctx.checks, record=choices.record(),
+               interleaving=(core.digest(ctx.interleaving) if ctx.interleaving is not None else None))
     res['digest'] = core.digest([res['trace'], res['violation'], res['state']])
     return res
 
@@ -139,7 +141,7 @@ def _worker_batch(args):
                     'stats': res['stats'], 'known_hits': res['known_hits'],
                     'nontrivial': res['nontrivial'], 'state': res['state'],
                     'sim_time': res['sim_time'], 'checks': res['checks'],
-                    'digest': res['digest'], 'nsteps': len(res['trace'])}
+                    'digest': res['digest'], 'nsteps': len(res['trace']), 'interleaving': res.get('interleaving')}
             if res['violation'] is not None or r < 3:
                 slim['record'] = res['record']
                 slim['trace'] = res['trace']
@@ -326,7 +328,7 @@ def finish(prop, tier, seed, results, harness_errors, t0, eng, min_budget=300, m
     known = core.load_known(KNOWN_PATH)
     viols = [r for r in results if r.get('violation')]
     stats, known_hits = {}, {}
-    digests, states, nontriv = set(), set(), set()
+    digests, states, nontriv, inter = set(), set(), set(), set()
     sim_time = 0.0
     checks = 0
     for r in results:
@@ -339,6 +341,8 @@ def finish(prop, tier, seed, results, harness_errors, t0, eng, min_budget=300, m
             states.add(str(r['state']))
         if r['nontrivial']:
             nontriv.add(r['digest'])
+        if r.get('interleaving'):
+            inter.add(r['interleaving'])
         sim_time += r.get('sim_time') or 0
         checks += r.get('checks') or 0
 
@@ -405,6 +409,7 @@ def finish(prop, tier, seed, results, harness_errors, t0, eng, min_budget=300, m
         'samples': samples or [{'note': 'no run finished'}],
         'distinct_trace_digests': len(digests),
         'distinct_final_model_states': len(states),
+        'distinct_interleavings': len(inter),
         'invariant_evaluations': checks,
         'simulated_time_units': round(sim_time, 3),
         'runs_per_hour': int(nev / wall * 3600) if wall > 0 else 0,
